@@ -57,7 +57,7 @@ RetFails(r, seen) ==
       \* nothing is injected in these runs: a write-side call has no reason to fail
       IF ~IsRead(op) THEN Fail(r.res.ok, "OPFAIL:" \o op.op \o "-failed-" \o r.res.err) ELSE {},
       IF IsRead(op) /\ r.res.ok THEN Fail(r.res.val \in seen, "C05:read-value-not-held-during-call") ELSE {},
-      IF op.op = "put" /\ r.res.ok THEN Fail(op.c \in seen, "C05:put-not-visible-during-call") ELSE {},
+      IF op.op \in {"put", "txfinish"} /\ r.res.ok THEN Fail(op.c \in seen, "C05:put-not-visible-during-call") ELSE {},
       IF op.op = "del" /\ r.res.ok /\ r.res.val = "true" THEN Fail(seen \ {Absent} # {}, "C05:remove-true-but-never-present") ELSE {},
       IF op.op = "del" /\ r.res.ok /\ r.res.val = "false" THEN Fail(Absent \in seen, "C05:remove-false-but-always-present") ELSE {}
     }
